@@ -8,7 +8,7 @@ The full timed effect log of the real code is compared with the Lean model `WinF
 import fw
 from fw import InjectedError, enc, err_name
 
-LEAN_TARGETS = ["RxProofs.C40"]
+LEAN_TARGETS = ["RxProofs.C40", "RxProofs.Lemmas.C02WinFin"]
 DRIVER = "drv_win"
 DRIVER_ROOT = "Win"
 
@@ -624,6 +624,13 @@ THEOREMS = [
     "C40.do_transparent_unless_raise",
     "C40.do_callbacks_once_in_order",
     "C40.do_on_dispose_exactly_once",
+    # release of the source subscription (support for C02/C03; RxProofs/Lemmas/C02WinFin.lean)
+    "WinFin.source_disposed_at_most_once",
+    "WinFin.terminal_releases_all_partial",
+    "WinFin.dispose_releases_all",
+    "WinFin.using_releases_all",
+    "WinFin.finally_action_releases_all",
+    "WinFin.dispose_leaks_source_when_hook_raises",
     "C40.do_action_raise_becomes_error",
 ]
 RULE = ("one subscription of using / finally_action / do_finally / do_action(any subset of callbacks) / do(observer) / do_after_next / "
